@@ -221,6 +221,12 @@ func genErrors(r *Rng) []jsonapi.Error {
 		if r.chance(1, 3) {
 			e.Source["pointer"] = "/data/attributes/a"
 		}
+		if r.chance(1, 5) {
+			// source is a map[string]any: values of any JSON kind travel as they are
+			for k, v := range genMeta(r, 1) {
+				e.Source[k] = v
+			}
+		}
 		if r.chance(1, 3) {
 			e.Meta = genMeta(r, 1)
 		}
@@ -320,7 +326,7 @@ func suiteDocument(r *Rng, n int, thorough bool, o *Out) {
 			if r.chance(2, 3) {
 				ids = jsonapi.Identifiers{}
 				for i := r.IntN(4); i > 0; i-- {
-					ids = append(ids, jsonapi.Identifier{ID: mStrPool[1+r.IntN(len(mStrPool)-1)], Type: ts[0].typ.Name})
+					ids = append(ids, jsonapi.Identifier{ID: mStrPool[1+r.IntN(len(mStrPool)-1)], Type: ts[r.IntN(len(ts))].typ.Name})
 				}
 			}
 			doc.Data = ids
